@@ -11,6 +11,7 @@ import (
 	"strings"
 	"time"
 
+	"github.com/vipnode/vipnode/v2/ethnode"
 	"github.com/vipnode/vipnode/v2/internal/verif/vsched"
 	"github.com/vipnode/vipnode/v2/jsonrpc2"
 	"github.com/vipnode/vipnode/v2/pool"
@@ -52,6 +53,7 @@ type PoolWorld struct {
 	SettleOK func(n int) bool // nil: always ok; n = ordinal of the settle attempt (0-based)
 	Hosts    map[string]*FakeHost
 	Step     int // logical step counter for ordering observations
+	nonceSeq int64
 }
 
 // DepositStore adds per-account on-chain deposits to balances exactly like payment.contractPayment.
@@ -278,4 +280,81 @@ func (w *PoolWorld) CallLog() string {
 		b.WriteString("|")
 	}
 	return b.String()
+}
+
+// ---------------------------------------------------------------------------
+// Signed calls (real signatures, nonces derived from the virtual clock + a per-world sequence).
+
+func (w *PoolWorld) nextNonce() int64 {
+	w.nonceSeq++
+	return vsched.Now().UnixNano() + w.nonceSeq
+}
+
+// ConnectOpts are the knobs of a connect call.
+type ConnectOpts struct {
+	Host    bool
+	Kind    string // "geth" (default) or "parity"
+	NodeURI string
+	Payout  string
+	Service jsonrpc2.Service // for hosts: the connection object; default the FakeHost named after the identity
+}
+
+func kindOf(s string) ethnode.NodeKind {
+	if s == "" {
+		s = "geth"
+	}
+	return ethnode.ParseNodeKind(s)
+}
+
+// Connect performs a real signed vipnode_connect.
+func (w *PoolWorld) Connect(id *Ident, o ConnectOpts) (*pool.ConnectResponse, error) {
+	req := pool.ConnectRequest{
+		VipnodeVersion: "verif",
+		NodeInfo:       ethnode.UserAgent{Kind: kindOf(o.Kind), IsFullNode: o.Host, Version: "v1"},
+		NodeURI:        o.NodeURI,
+		Payout:         o.Payout,
+	}
+	ctx := context.Background()
+	if o.Host {
+		svc := o.Service
+		if svc == nil {
+			svc = w.Host(id.Name).Service()
+		}
+		ctx = CtxWith(svc)
+	}
+	n := w.nextNonce()
+	return w.Pool.Connect(ctx, id.SignNode("vipnode_connect", n, req), id.NodeID, n, req)
+}
+
+// Update performs a real signed vipnode_update reporting the given peer ids.
+func (w *PoolWorld) Update(id *Ident, peers []string, block uint64) (*pool.UpdateResponse, error) {
+	return w.UpdateCtx(context.Background(), id, peers, block)
+}
+
+func (w *PoolWorld) UpdateCtx(ctx context.Context, id *Ident, peers []string, block uint64) (*pool.UpdateResponse, error) {
+	req := pool.UpdateRequest{BlockNumber: block, PeerInfo: []ethnode.PeerInfo{}}
+	for _, p := range peers {
+		req.PeerInfo = append(req.PeerInfo, ethnode.PeerInfo{ID: p})
+	}
+	n := w.nextNonce()
+	return w.Pool.Update(ctx, id.SignNode("vipnode_update", n, req), id.NodeID, n, req)
+}
+
+// Peer performs a real signed vipnode_peer.
+func (w *PoolWorld) Peer(ctx context.Context, id *Ident, num int, kind string) (*pool.PeerResponse, error) {
+	req := pool.PeerRequest{Num: num, Kind: kind}
+	n := w.nextNonce()
+	return w.Pool.Peer(ctx, id.SignNode("vipnode_peer", n, req), id.NodeID, n, req)
+}
+
+// AddNode performs a real signed pool_addNode.
+func (w *PoolWorld) AddNode(wallet *Ident, nodeID string) error {
+	n := w.nextNonce()
+	return w.Payment.AddNode(context.Background(), wallet.SignWallet("pool_addNode", n, nodeID), wallet.Wallet, n, nodeID)
+}
+
+// Withdraw performs a real signed pool_withdraw.
+func (w *PoolWorld) Withdraw(wallet *Ident) error {
+	n := w.nextNonce()
+	return w.Payment.Withdraw(context.Background(), wallet.SignWallet("pool_withdraw", n), wallet.Wallet, n)
 }
